@@ -10,11 +10,13 @@ abbrev Map := Name → Option Lnk
 def upd (m : Map) (k : Name) (v : Option Lnk) : Map := fun x => if x = k then v else m x
 
 /-- what is assumed of the digit function (murmur3 + bit extraction): every name has the same
-(non-zero) number of digits, and no two names agree on all of them (no full-hash collision) -/
-structure DigitsOK (dg : Name → List Nat) : Prop where
+(non-zero) number of digits, and no two names OF THE UNIVERSE `U` (the names the directory and the
+operations ever use — a finite set in any run, so the assumption is satisfiable for a 64-bit hash)
+agree on all of them (no full-hash collision) -/
+structure DigitsOK (U : Name → Prop) (dg : Name → List Nat) : Prop where
   len : ∀ a b, (dg a).length = (dg b).length
   ne : ∀ a, dg a ≠ []
-  inj : ∀ a b, dg a = dg b → a = b
+  inj : ∀ a b, U a → U b → dg a = dg b → a = b
 
 namespace Trie
 theorem AllKeys.of_forall {P : Name → Prop} (h : ∀ k, P k) : ∀ t : Trie, AllKeys P t
@@ -30,8 +32,10 @@ variable (h : Name → List Byte)
 def abs (hd : Hamt) : Map := Trie.get (hd.dg h) hd.shard
 def Inv (hd : Hamt) : Prop := Trie.WF (hd.dg h) hd.shard ∧ Trie.Canon hd.shard
 
-theorem swapTop_spec (hd : Hamt) (key : Name) (v : Option Lnk) (hi : hd.Inv h) (ok : DigitsOK (hd.dg h)) :
+theorem swapTop_spec (U : Name → Prop) (hd : Hamt) (key : Name) (v : Option Lnk) (hi : hd.Inv h)
+    (hu : U key) (hk : Trie.AllKeys U hd.shard) (ok : DigitsOK U (hd.dg h)) :
     Trie.WF (hd.dg h) (hd.swapTop h key v).1 ∧ Trie.Canon (hd.swapTop h key v).1 ∧
+    Trie.AllKeys U (hd.swapTop h key v).1 ∧
     match (hd.swapTop h key v).2 with
     | .ok old => Trie.get (hd.dg h) (hd.swapTop h key v).1 = upd (hd.abs h) key v ∧
         old.map (·.lnk) = hd.abs h key ∧ (v = none → old.isSome)
@@ -42,11 +46,12 @@ theorem swapTop_spec (hd : Hamt) (key : Name) (v : Option Lnk) (hi : hd.Inv h) (
   | nil => exact absurd hdg (ok.ne key)
   | cons i r =>
     simp only
+    have ku := Trie.swap_keys key v (hd.dg h) hd.shard i r hu hk
     have wf := Trie.swap_wf key v (hd.dg h) hd.shard i r hi.1 hdg
     have cn := Trie.swap_canon key v (hd.dg h) hd.shard i r hi.2
     have rs := Trie.swap_res key v (hd.dg h) hd.shard i r hi.1 hdg
     have ntd := Trie.swap_not_toodeep key v (hd.dg h) hd.shard i r hi.1 hi.2 hdg ok.len
-      (Trie.AllKeys.of_forall (fun k hne he => hne (ok.inj _ _ he)) _)
+      (Trie.AllKeys.imp (fun k hku hne he => hne (ok.inj _ _ hku hu he)) _ hk)
     have hne : ∀ k', k' ≠ key → Trie.get (hd.dg h) (Trie.swap (hd.dg h) key v hd.shard i r).1 k' = hd.abs h k' := by
       intro k' hk'
       unfold abs Trie.get
@@ -55,7 +60,7 @@ theorem swapTop_spec (hd : Hamt) (key : Name) (v : Option Lnk) (hi : hd.Inv h) (
       | cons i2 r2 => exact Trie.swap_lookup_ne key v (hd.dg h) hd.shard i r hi.1 hdg k' hk' i2 r2 hd'
     have hkey : ∀ t : Trie, Trie.get (hd.dg h) t key = Trie.lookup key t i r := by
       intro t; simp [Trie.get, hdg]
-    refine ⟨wf, cn, ?_⟩
+    refine ⟨wf, cn, ku, ?_⟩
     cases hres : (Trie.swap (hd.dg h) key v hd.shard i r).2 with
     | ok old =>
       rw [hres] at rs
@@ -117,20 +122,28 @@ def SpecStep (bounded : Bool) (m : Map) : DOp → DOut → Map → Prop
   | .list, out, m' => ∃ es, out = .listing es ∧ (es.map (·.1)).Nodup ∧ (∀ k l, (k, l) ∈ es ↔ m k = some l) ∧ m' = m
   | .each, out, m' => ∃ es, out = .listing es ∧ (es.map (·.1)).Nodup ∧ (∀ k l, (k, l) ∈ es ↔ m k = some l) ∧ m' = m
 
+/-- the names an operation mentions belong to the universe -/
+def OpIn (U : Name → Prop) : DOp → Prop
+  | .add n _ => U n
+  | .rm n => U n
+  | .find n => U n
+  | _ => True
+
 inductive SpecRun (bounded : Bool) : Map → List DOp → List DOut → Map → Prop where
   | nil (m : Map) : SpecRun bounded m [] [] m
   | cons {m m' m'' : Map} {op : DOp} {out : DOut} {ops : List DOp} {outs : List DOut} :
       SpecStep bounded m op out m' → SpecRun bounded m' ops outs m'' → SpecRun bounded m (op :: ops) (out :: outs) m''
 
-/-- a one-step simulation under an invariant lifts to every operation sequence -/
-theorem run_refines (h : Name → List Byte) (g : Globals) (I : State → Prop) (absf : State → Map) (bounded : Bool)
-    (hstep : ∀ st op, I st → I (dstep h g st op).1 ∧ SpecStep bounded (absf st) op (dstep h g st op).2 (absf (dstep h g st op).1)) :
-    ∀ (ops : List DOp) (st : State), I st →
+/-- a one-step simulation under an invariant lifts to every operation sequence (over the universe `U`) -/
+theorem run_refines (h : Name → List Byte) (g : Globals) (U : Name → Prop) (I : State → Prop) (absf : State → Map) (bounded : Bool)
+    (hstep : ∀ st op, I st → OpIn U op →
+      I (dstep h g st op).1 ∧ SpecStep bounded (absf st) op (dstep h g st op).2 (absf (dstep h g st op).1)) :
+    ∀ (ops : List DOp) (st : State), I st → (∀ op ∈ ops, OpIn U op) →
       I (drun h g st ops).1 ∧ SpecRun bounded (absf st) ops (drun h g st ops).2 (absf (drun h g st ops).1)
-  | [], st, hi => ⟨hi, SpecRun.nil _⟩
-  | op :: ops, st, hi => by
-    obtain ⟨hi', hs⟩ := hstep st op hi
-    obtain ⟨hi'', hr⟩ := run_refines h g I absf bounded hstep ops _ hi'
+  | [], st, hi, _ => ⟨hi, SpecRun.nil _⟩
+  | op :: ops, st, hi, hu => by
+    obtain ⟨hi', hs⟩ := hstep st op hi (hu op (by simp))
+    obtain ⟨hi'', hr⟩ := run_refines h g U I absf bounded hstep ops _ hi' (fun o ho => hu o (by simp [ho]))
     exact ⟨hi'', SpecRun.cons hs hr⟩
 
 /-! ### the HAMT directory used directly -/
@@ -140,29 +153,32 @@ theorem get_congr {t1 t2 : Trie} (hd : toDag t1 = toDag t2) (dgl : Name → List
   funext k; unfold get; split
   · rfl
   · exact lookup_congr hd _ _ _
+
+theorem allKeys_congr {P : Name → Prop} {t1 t2 : Trie} (hd : toDag t1 = toDag t2) : AllKeys P t1 ↔ AllKeys P t2 := by
+  rw [← allKeys_norm t1, ← allKeys_norm t2, norm, norm, hd]
 end Trie
 
-/-- a pure HAMT directory state of shard width `w` -/
-def IsHamt (h : Name → List Byte) (w : Nat) (st : State) : Prop :=
-  st.dyn = false ∧ ∃ hd, st.dir = .hamt hd ∧ hd.width = w ∧ hd.Inv h
+/-- a pure HAMT directory state of shard width `w` whose names all belong to `U` -/
+def IsHamt (h : Name → List Byte) (U : Name → Prop) (w : Nat) (st : State) : Prop :=
+  st.dyn = false ∧ ∃ hd, st.dir = .hamt hd ∧ hd.width = w ∧ hd.Inv h ∧ Trie.AllKeys U hd.shard
 
 def absState (h : Name → List Byte) (st : State) : Map :=
   match st.dir with
   | .basic b => fun k => b.getLink k
   | .hamt hd => hd.abs h
 
-theorem hamt_step (h : Name → List Byte) (g : Globals) (w : Nat)
-    (ok : DigitsOK (fun n => hashDigits (h n) (lg2 w))) (st : State) (op : DOp) (hi : IsHamt h w st) :
-    IsHamt h w (dstep h g st op).1 ∧ SpecStep false (absState h st) op (dstep h g st op).2 (absState h (dstep h g st op).1) := by
-  obtain ⟨hdyn, hd, hdir, hw, hinv⟩ := hi
+theorem hamt_step (h : Name → List Byte) (g : Globals) (U : Name → Prop) (w : Nat)
+    (ok : DigitsOK U (fun n => hashDigits (h n) (lg2 w))) (st : State) (op : DOp) (hi : IsHamt h U w st) (hop : OpIn U op) :
+    IsHamt h U w (dstep h g st op).1 ∧ SpecStep false (absState h st) op (dstep h g st op).2 (absState h (dstep h g st op).1) := by
+  obtain ⟨hdyn, hd, hdir, hw, hinv, hku⟩ := hi
   have hdg : hd.dg h = fun n => hashDigits (h n) (lg2 w) := by unfold Hamt.dg; rw [hw]
-  have ok' : DigitsOK (hd.dg h) := by rw [hdg]; exact ok
+  have ok' : DigitsOK U (hd.dg h) := by rw [hdg]; exact ok
   obtain ⟨dyn, dir⟩ := st
   simp only at hdyn hdir
   subst hdyn; subst hdir
   cases op with
   | add n l =>
-    have sp := Hamt.swapTop_spec h hd n (some l) hinv ok'
+    have sp := Hamt.swapTop_spec h U hd n (some l) hinv hop hku ok'
     simp only [dstep, addChild, Hamt.addChild, absState]
     cases hx : hd.swapTop h n (some l) with
     | mk t res =>
@@ -170,13 +186,13 @@ theorem hamt_step (h : Name → List Byte) (g : Globals) (w : Nat)
       cases res with
       | ok old =>
         simp only at sp ⊢
-        refine ⟨⟨rfl, _, rfl, hw, ?_⟩, Or.inl ⟨rfl, ?_⟩⟩
+        refine ⟨⟨rfl, _, rfl, hw, ?_, sp.2.2.1⟩, Or.inl ⟨rfl, ?_⟩⟩
         · exact ⟨sp.1, sp.2.1⟩
-        · exact sp.2.2.1
+        · exact sp.2.2.2.1
       | notfound => simp at sp
       | toodeep => simp at sp
   | rm n =>
-    have sp := Hamt.swapTop_spec h hd n none hinv ok'
+    have sp := Hamt.swapTop_spec h U hd n none hinv hop hku ok'
     simp only [dstep, removeChild, Hamt.removeChild, absState]
     cases hx : hd.swapTop h n none with
     | mk t res =>
@@ -188,15 +204,15 @@ theorem hamt_step (h : Name → List Byte) (g : Globals) (w : Nat)
         | none => simp at sp
         | some o =>
           simp only
-          refine ⟨⟨rfl, _, rfl, hw, ?_⟩, Or.inr ⟨?_, rfl, ?_⟩⟩
+          refine ⟨⟨rfl, _, rfl, hw, ?_, sp.2.2.1⟩, Or.inr ⟨?_, rfl, ?_⟩⟩
           · exact ⟨sp.1, sp.2.1⟩
-          · have := sp.2.2.2.1; simp at this; rw [← this]; simp
-          · exact sp.2.2.1
+          · have := sp.2.2.2.2.1; simp at this; rw [← this]; simp
+          · exact sp.2.2.2.1
       | notfound =>
         simp only at sp ⊢
-        refine ⟨⟨rfl, _, rfl, hw, ?_⟩, Or.inl ⟨sp.2.2.2.1, rfl, ?_⟩⟩
+        refine ⟨⟨rfl, _, rfl, hw, ?_, sp.2.2.1⟩, Or.inl ⟨sp.2.2.2.2.1, rfl, ?_⟩⟩
         · exact ⟨sp.1, sp.2.1⟩
-        · exact sp.2.2.2.2
+        · exact sp.2.2.2.2.2
       | toodeep => simp at sp
   | find n =>
     simp only [dstep, findChild, Hamt.findTop, absState]
@@ -214,23 +230,24 @@ theorem hamt_step (h : Name → List Byte) (g : Globals) (w : Nat)
         simp only at hl hdag hnt
         have hinv' : Hamt.Inv h { hd with shard := t } :=
           ⟨(Trie.wf_congr hdag _).2 hinv.1, (Trie.canon_congr hdag).2 hinv.2⟩
+        have hku' : Trie.AllKeys U t := (Trie.allKeys_congr hdag).2 hku
         have habs' : Hamt.abs h { hd with shard := t } = hd.abs h := by
           simp only [Hamt.abs, Hamt.dg]; exact Trie.get_congr hdag _
         cases fr with
         | found s =>
           simp only [Trie.FindRes.lnk] at hl
-          exact ⟨⟨rfl, _, rfl, hw, hinv'⟩, by rw [habs, ← hl]; rfl, habs'⟩
+          exact ⟨⟨rfl, _, rfl, hw, hinv', hku'⟩, by rw [habs, ← hl]; rfl, habs'⟩
         | notfound =>
           simp only [Trie.FindRes.lnk] at hl
-          exact ⟨⟨rfl, _, rfl, hw, hinv'⟩, by rw [habs, ← hl]; rfl, habs'⟩
+          exact ⟨⟨rfl, _, rfl, hw, hinv', hku'⟩, by rw [habs, ← hl]; rfl, habs'⟩
         | toodeep => exact absurd rfl hnt
   | list =>
     simp only [dstep, dirEntries, absState]
-    exact ⟨⟨rfl, hd, rfl, hw, hinv⟩, _, rfl, Trie.ents_nodup _ _ hinv.1, fun k l => Trie.mem_ents_iff _ _ hinv.1 k l, rfl⟩
+    exact ⟨⟨rfl, hd, rfl, hw, hinv, hku⟩, _, rfl, Trie.ents_nodup _ _ hinv.1, fun k l => Trie.mem_ents_iff _ _ hinv.1 k l, rfl⟩
   | each =>
     simp only [dstep, dirEntries, eachChild, absState]
     have hdag := Trie.toDag_stripAll hd.shard
-    refine ⟨⟨rfl, _, rfl, hw, ⟨(Trie.wf_congr hdag _).2 hinv.1, (Trie.canon_congr hdag).2 hinv.2⟩⟩,
+    refine ⟨⟨rfl, _, rfl, hw, ⟨(Trie.wf_congr hdag _).2 hinv.1, (Trie.canon_congr hdag).2 hinv.2⟩, (Trie.allKeys_congr hdag).2 hku⟩,
       _, rfl, Trie.ents_nodup _ _ hinv.1, fun k l => Trie.mem_ents_iff _ _ hinv.1 k l, ?_⟩
     simp only [Hamt.abs, Hamt.dg]; exact Trie.get_congr hdag _
 
